@@ -139,3 +139,48 @@ func Pattern(tag byte, n int) []byte {
 	}
 	return b
 }
+
+// RawChunk describes one hand-built chunk of a Shadowsocks stream: LenField overrides the
+// encrypted length field (0 = len(Payload)); a nil Payload with LenField set sends only the
+// length block.
+type RawChunk struct {
+	Payload  []byte
+	LenField int
+	NoBody   bool
+}
+
+// RawStream encrypts chunks by hand (salt drawn from seed) so that malformed length
+// fields and zero-length chunks can be produced, which the SDK writer never emits.
+func RawStream(k *Key, seed uint64, chunks []RawChunk) []byte {
+	salt := make([]byte, k.K.SaltSize())
+	io.ReadFull(vrt.DetRand(seed+1000), salt)
+	aead, err := k.K.NewAEAD(salt)
+	if err != nil {
+		panic(err)
+	}
+	out := append([]byte(nil), salt...)
+	nonce := make([]byte, aead.NonceSize())
+	inc := func() {
+		for i := range nonce {
+			nonce[i]++
+			if nonce[i] != 0 {
+				return
+			}
+		}
+	}
+	for _, c := range chunks {
+		l := c.LenField
+		if l == 0 {
+			l = len(c.Payload)
+		}
+		lb := []byte{byte(l >> 8), byte(l)}
+		out = aead.Seal(out, nonce, lb, nil)
+		inc()
+		if c.NoBody {
+			continue
+		}
+		out = aead.Seal(out, nonce, c.Payload, nil)
+		inc()
+	}
+	return out
+}
